@@ -118,6 +118,31 @@ def run(res):
             if canon(G) != canon(impl_graph(adj, order)):
                 res.violation('editing the reversed graph / subgraph / reachable set returned earlier changed the original',
                               {'adjacency': obs})
+            # history: the caller edits G itself after the operations have been used once; everything must follow
+            from pyModelChecking.graph import compute_SCCs
+            list(compute_SCCs(G))
+            G.add_node(n + 20)
+            G.add_edge(0, n + 20)
+            G.add_edge(n + 20, n - 1)
+            adj2 = [list(a) for a in adj] + [[] for _ in range(n, n + 21)]
+            adj2[0] = adj2[0] + [n + 20]
+            adj2[n + 20] = [n - 1]
+            order2 = list(order) + [n + 20]
+            Gf = impl_graph([adj2[v] if v in order2 else [] for v in range(n + 21)], order2)
+            now = {'reversed': canon(G.get_reversed_graph()), 'clone': canon(G.clone()),
+                   'subgraph': canon(G.get_subgraph(order2)), 'reach': sorted(G.get_reachable_set_from([n - 1])),
+                   'sccs': sorted(sorted(c) for c in compute_SCCs(G))}
+            fresh = {'reversed': canon(Gf.get_reversed_graph()), 'clone': canon(Gf.clone()),
+                     'subgraph': canon(Gf.get_subgraph(order2)), 'reach': sorted(Gf.get_reachable_set_from([n - 1])),
+                     'sccs': sorted(sorted(c) for c in compute_SCCs(Gf))}
+            for k_ in now:
+                if now[k_] != fresh[k_]:
+                    res.violation('after add_node / add_edge on a graph whose %s had been computed before, %s differs from the '
+                                  'one of a freshly built equal graph' % (k_, k_),
+                                  {'adjacency': obs, 'operation': k_, 'on_the_edited_graph': str(now[k_])[:300],
+                                   'on_a_fresh_equal_graph': str(fresh[k_])[:300],
+                                   'history': ['compute %s on G' % k_, 'G.add_node(%d); G.add_edge(0, %d); G.add_edge(%d, %d)' % (n + 20, n + 20, n + 20, n - 1),
+                                               'compute %s on G again' % k_]})
     # scale: long paths / rings / combs (depth must not matter), through the same operations
     from pyModelChecking.graph import DiGraph
     for n in ((1500, 3000) if quick else (1500, 3000, 8000)):
